@@ -38,6 +38,8 @@ def teams(tier):
                 for leave in (None, "2025-01-06-11:00", "2025-01-06-13:00"):
                     for pre in (0, 20, 90):
                         yield {"kind": "team", "L": L, "alap": alap, "m": m, "leave": leave, "pre": pre}
+                for lim in ("1h", "2h", "3h"):
+                    yield {"kind": "teamlim", "L": L, "alap": alap, "m": m, "lim": lim}
                 for k in range(0, 5):
                     for eff2 in (1.0, 0.5):
                         yield {"kind": "alt", "L": L, "alap": alap, "m": m, "k": k, "eff2": eff2}
@@ -95,6 +97,8 @@ def to_spec(it):
                 t["deps"] = ["pre"]
         tasks.append(t)
         base.update(resources=[{"id": "r1", "eff": it["eff"]}], tasks=tasks)
+    elif k == "teamlim":
+        base.update(resources=[{"id": "r1"}, {"id": "r2"}], tasks=[{"id": "x", "effort": it["m"], "alloc": ["r1", "r2"], "limits": {"dailymax": it["lim"]}}])
     elif k == "team":
         r2 = {"id": "r2"}
         if it["leave"]:
